@@ -8,6 +8,9 @@
 //!   C0 raw silent client | C1 hyper h1 client | C2 hyper h2 client | C3 hyper h2 client whose
 //!   writes are cut after 10 bytes (partial preface)      -- queue a connect (no settle)
 //!   X  queue a connect, then go away before the server polls (cancelled connect)
+//!   Cr / Cf (tcp, unix) a client completes the transport-level connect and is gone before the server
+//!        accepts it: Cr resets (SO_LINGER 0 close; unix: plain close), Cf closes (FIN).  Blocking std
+//!        connect + drop, synchronously, so the dead connection sits in the listen backlog; logged C<c> F<c>
 //!   U  (unix) connect from a socket bound to a non-UTF-8 path; behaves like C1
 //!   L  lose the listener (drop every client handle; duplex only)   M  arm a make-service failure
 //!   G  fire the shutdown signal (mode g)                  S  settle (run everything to quiescence)
@@ -413,6 +416,34 @@ impl World {
         }
     }
 
+    /// a client that connects at transport level and is gone (reset / closed) before the server accepts
+    fn connect_dead(&mut self, reset: bool) {
+        let c = self.clients.len();
+        match &self.dial {
+            Dial::Tcp(addr) => {
+                if let Ok(s) = std::net::TcpStream::connect(addr) {
+                    if reset {
+                        let _ = socket2::SockRef::from(&s).set_linger(Some(std::time::Duration::ZERO));
+                    }
+                    drop(s);
+                }
+                // loopback delivers the RST / FIN in-line; give the kernel a moment anyway
+                std::thread::sleep(std::time::Duration::from_millis(2));
+            }
+            Dial::Unix(path) => {
+                if let Ok(s) = std::os::unix::net::UnixStream::connect(path) {
+                    drop(s);
+                }
+            }
+            Dial::Duplex(_) => return, // not scripted on the in-memory transport (that is X)
+        }
+        self.log.put(format!("C{c}"));
+        self.log.put(format!("F{c}"));
+        let sh = Arc::new(Mutex::new(Shared::default()));
+        sh.lock().unwrap().closed = true;
+        self.clients.push(Client { kind: 0, gate: Arc::new(Gate::default()), sh, reqs: Vec::new(), gone: true });
+    }
+
     fn connect(&mut self, kind: u8, cancel: bool, odd_path: bool, buf: usize) {
         let c = self.clients.len();
         let fut: Pin<Box<dyn Future<Output = std::io::Result<BoxIo>> + Send>> = match &self.dial {
@@ -531,6 +562,8 @@ impl World {
                 let buf = if tok.len() > 3 { tok[3..].parse::<usize>().unwrap_or(1 << 16) } else { 1 << 16 };
                 self.connect(tok.as_bytes()[1] - b'0', false, false, buf)
             }
+            "Cr" => self.connect_dead(true),
+            "Cf" => self.connect_dead(false),
             "U" => self.connect(1, false, true, 1 << 16),
             "X" => self.connect(1, true, false, 1 << 16),
             "L" => {
